@@ -118,7 +118,7 @@ Definition dec_part (v : val) : option (list row) :=
   match v with VList rs => map_opt dec_row rs | _ => None end.
 Definition dec_table (v : val) : option df :=
   match v with
-  | VTup [ns; VList ps] =>
+  | VTup [ns; _; VList ps] =>
       bind (dec_names ns) (fun ns' => bind (map_opt dec_part ps) (fun ps' => Some (mkdf ns' ps')))
   | _ => None
   end.
@@ -169,16 +169,34 @@ Fixpoint op_unordered (fuel : nat) (o : op) : bool :=
 
 Definition one_partition (h : nat) (l : list row) : list (list row) := [l].
 
+Definition enc_frame (unordered : bool) (d : df) : val :=
+  let rows := collect d in
+  let rows' := if unordered then canon_rows rows else rows in
+  VTup [VList (map VStr (cols d)); VList (map (fun r => VTup (map enc_cell r)) rows')].
+
+(* the frame after every step; None as soon as a step raises *)
+Fixpoint run_steps (t2 : df) (ops : list op) (d : df) (unordered : bool) : option (list val) :=
+  match ops with
+  | [] => Some []
+  | o :: ops' =>
+      match step one_partition t2 o d with
+      | Some d' =>
+          let u := unordered || op_unordered 4 o in
+          match run_steps t2 ops' d' u with
+          | Some rest => Some (enc_frame u d' :: rest)
+          | None => None
+          end
+      | None => None
+      end
+  end.
+
 Definition run (c : val) : val :=
   match c with
   | VTup [t1; t2; VList os] =>
       match dec_table t1, dec_table t2, map_opt (dec_op 4) os with
       | Some d1, Some d2, Some ops =>
-          match run_ops one_partition d2 ops d1 with
-          | Some d =>
-              let rows := collect d in
-              let rows' := if existsb (op_unordered 4) ops then canon_rows rows else rows in
-              VTup [VList (map VStr (cols d)); VList (map (fun r => VTup (map enc_cell r)) rows')]
+          match run_steps d2 ops d1 false with
+          | Some frames => VList (enc_frame false d1 :: frames)
           | None => VErr "ModelNone"
           end
       | _, _, _ => VBad
